@@ -170,7 +170,7 @@ def _validate(part, r, with_fluxes, FI, S):
 
 def configs(tier, seed):
     cfgs = []
-    for r in ((1, 2, 3) if tier == 'quick' else (1, 2, 3, 4)):
+    for r in ((1, 2, 3) if tier == 'quick' else (1, 2, 3, 4, 5)):
         cfgs.append(Config('truncate records=%d %s' % (r, 'with predicted fluxes' if r % 2 == 0 else 'no predicted fluxes'),
                            h_trunc(r, r % 2 == 0), 1500))
     if tier != 'quick':
